@@ -149,10 +149,10 @@ example (f : Fmt) :
   have hay : ∀ y : Fin 3, f.eps < (![1/4, 1/4, 1/2] : Fin 3 → ℚ) y := by
     intro y; fin_cases y <;> simp <;> linarith
   refine ⟨hI, hay, fun x => maxUyx_eq_zero_of_excluded hI x ?_⟩
-  fin_cases x
-  · exact ⟨2, hay 2, by simp⟩
-  · exact ⟨1, hay 1, by simp⟩
-  · exact ⟨2, hay 2, by simp⟩
+  match x with
+  | 0 => exact ⟨2, hay 2, by norm_num [Matrix.cons_val_two, Matrix.vecHead, Matrix.vecTail]⟩
+  | 1 => exact ⟨1, hay 1, by norm_num [Matrix.cons_val_two, Matrix.vecHead, Matrix.vecTail]⟩
+  | 2 => exact ⟨2, hay 2, by norm_num [Matrix.cons_val_two, Matrix.vecHead, Matrix.vecTail]⟩
 
 /-- second case, 2×2: the identity table -/
 example (f : Fmt) :
@@ -165,9 +165,9 @@ example (f : Fmt) :
   have hay : ∀ y : Fin 2, f.eps < (![1/2, 1/2] : Fin 2 → ℚ) y := by
     intro y; fin_cases y <;> simp <;> linarith
   refine ⟨hI, hay, fun x => maxUyx_eq_zero_of_excluded hI x ?_⟩
-  fin_cases x
-  · exact ⟨1, hay 1, by simp⟩
-  · exact ⟨0, hay 0, by simp⟩
+  match x with
+  | 0 => exact ⟨1, hay 1, by norm_num [Matrix.cons_val_two, Matrix.vecHead, Matrix.vecTail]⟩
+  | 1 => exact ⟨0, hay 0, by norm_num [Matrix.cons_val_two, Matrix.vecHead, Matrix.vecTail]⟩
 
 /-- first case (and a mixed table), 2×2: the first (uncertain) conditional has `maxUyx = 3/4 > ε`, the second (dogmatic) excludes `y₀`
     (`maxUyx = 0`): the band-exclusion hypothesis holds and `wprop = 1` -/
@@ -187,9 +187,10 @@ example (f : Fmt) :
     refine lt_trans he (lt_maxUyx_of_forall 0 (1/4) (by norm_num) ?_)
     intro y; fin_cases y <;> norm_num
   refine ⟨hI, hay, fun x => ?_, ⟨0, h0⟩⟩
-  fin_cases x
-  · right; exact h0
-  · left
-    exact maxUyx_eq_zero_of_excluded hI 1 ⟨0, hay 0, by simp⟩
+  match x with
+  | 0 => right; exact h0
+  | 1 =>
+    left
+    exact maxUyx_eq_zero_of_excluded hI 1 ⟨0, hay 0, by norm_num [Matrix.cons_val_two, Matrix.vecHead, Matrix.vecTail]⟩
 
 end SLV.Props.C05
